@@ -68,7 +68,7 @@ func TestVF_C33(t *testing.T) {
 		"then for every r <= R and error kind {transient error, context deadline exceeded} - and for every read that returns a reader also {call succeeds but the reader breaks after 0 bytes / half / one byte short} - a fresh compactor runs the cycle on a fresh copy of the state with the r-th sync read failing once; " +
 		"oracle: no mutating bucket operation (upload, delete) is applied after the failed read in that cycle; sets without vertical compaction additionally run a shared-Syncer phase: inside the first bucket operation the compactor issues after a sync, ANOTHER SyncMetas on the same Syncer (uncached fetcher) runs to completion with one failing meta.json read; oracle there: the foreign sync reports its error and no uploaded compaction result spans an existing complete unmarked block that is not among its sources; distinct = (state, r, kind); non-trivial = the fault was injected and the fault-free run " +
 		"performed destructive work after its r-th read")
-	nsets := r.N(3, 24)
+	nsets := r.N(3, 16)
 	r.Assume("production wiring is mirrored from cmd/thanos/compact.go: fetcher and marker filters are the only readers of the sync view; concurrency 1")
 	r.Assume("a not-found answer is not a read failure (it is indistinguishable from absence) and is not injected")
 	ctx := context.Background()
